@@ -9,7 +9,7 @@ import numpy as np
 
 from common import R, fl, relclose
 
-LEAN_MODULES = ["PyomaVerif.Props.C14", "PyomaVerif.Mutants.C14"]
+LEAN_MODULES = ["PyomaVerif.Props.C14", "PyomaVerif.Mutants.C14", "PyomaVerif.Props.C03Split"]
 THEOREMS = [
     "PV.C14.C14_invariant_single",
     "PV.C14.C14_invariant_multi",
@@ -18,6 +18,12 @@ THEOREMS = [
     "PV.C14.C14_duration_single_full_false",
     "PV.C14.C14_duration_single_repaired",
     "PV.C14.C14_split",
+    # "with the reference/roving split re-applied": the symbolic split of `data` is the split C03 proves things about
+    # (Multi.preSplit: listed order, roving ascending, permutation) after EVERY history, and evaluates to the record-level
+    # gen.pre_multisetup of the processed datasets (Props/C03Split.lean)
+    "PV.C03Split.C03_split_models_agree",
+    "PV.C03Split.C03_split_every_step",
+    "PV.C03Split.C03_data_every_step",
     "PV.C14.C14_len_dec",
     "PV.C14.C14_filter_fs_single",
     "PV.C14.C14_filter_fs_multi",
